@@ -73,7 +73,7 @@ func lmtpStatus(rng *rand.Rand, i int) BErr {
 	case 1:
 		return BPlain(fmt.Sprintf("plain failure %d", i))
 	case 2:
-		return BSmtp(450+i, [3]int{0, 0, 0}, fmt.Sprintf("status %d without enhanced code", i))
+		return BSmtp(450+i, [3]int{0, 0, 0}, fmt.Sprintf("status %d without enhanced code (100%% of quota, %%s %%d %%!)", i))
 	case 3:
 		return BSmtp(550+i, [3]int{5, 1, i}, fmt.Sprintf("status %d\nsecond line", i))
 	default:
@@ -87,7 +87,7 @@ func lmtpRet(rng *rand.Rand, fail bool) BErr {
 	}
 	switch rng.Intn(4) {
 	case 0:
-		return BPlain("backend said no")
+		return BPlain("backend said no: 100% sure, see %20 and %v")
 	case 1:
 		return BSmtp(451, [3]int{0, 0, 0}, "try later")
 	case 2:
